@@ -161,3 +161,13 @@ prop("C14",
      level_text="Theorems for every batch and every success/failure pattern: results are index-aligned (item k is a file iff item k succeeded, for item k's path), a descriptor is produced only where lstat found nothing or a regular file, an honest reply is always accepted, and for ANY reply an inconsistency closes every received descriptor; tie to regenerated handleOpen; real batches with planted symlinks/FIFOs/sockets/directories checked by inode identity and access mode through /proc/<init>/root; scripted dishonest peer",
      level_note="Trusted: Lean kernel; hand model tied by kernel-evaluated samples of regenerated code + differential; file-system outcomes parametric",
      technique="Lean 4 proof by induction over batches + decide +kernel tie to regenerated Go-lite + differential with planted objects and a scripted peer")
+
+prop("C19",
+     trusted_base=["hand model Model/Socket.lean: SOCK_SEQPACKET queue, kernel recvmsg truncation (data and control; descriptors that fit are installed even when the message is truncated), SCM_MAX_FD, and the library's SendMsg/RecvMsg with the receiver's descriptor ledger",
+                   "tie: per-operation differential on real socketpairs (bytes, (dev,ino) and FD_CLOEXEC of every received descriptor, Ucred, process descriptor count after every operation)"],
+     assumptions=["kernel SEQPACKET/SCM semantics as modelled; Go's ReadMsgUnix sets MSG_CMSG_CLOEXEC",
+                  "open known findings: (1) a zero-length payload is not delivered transparently (net.UnixConn pads it with a dummy byte when control data is attached, and it reads as EOF otherwise); (2) gob layer: an oversize (unsent) message that was the first use of its type leaves the encoder ahead of the decoder and every later message undecodable — unreachable from the container package, whose first messages (ping/conf and their replies) are small"],
+     not_covered="the gob framing is covered by the differential only (the model has no gob)",
+     level_text="Theorems over all histories and buffer sizes on the socket model: a receive hands over exactly one sent message (bytes, files in order, credentials) or rejects it without delivering data; with large enough buffers receives are the sends in FIFO order; more than SCM_MAX_FD descriptors are refused by the sender; no descriptor installed by the kernel stays open unaccounted (witness for the pinned tree's leak); differential on real socketpairs incl. 252/253/254 descriptors and buffer±1 payloads; gob layer around the 32 KiB cap",
+     level_note="Trusted: Lean kernel; hand model tied by differential; kernel socket semantics assumed. Two open known findings (zero-length payload, gob unsent-oversize first use)",
+     technique="Lean 4 proofs by induction over operation histories + differential correspondence on real socketpairs")
